@@ -1,3 +1,153 @@
-From HV Require Import Base.Prelude.
-Theorem C03_placeholder : True. Proof. exact I. Qed.
-Print Assumptions C03_placeholder.
+(* C03 - Group/link namespace after reopen equals the tree that was built.
+   Model: Model/GroupNS.v (writer bookkeeping step, reader read_tree, specification spec_step).
+   c : cfg are the thresholds (Go: heap 256 bytes, 32 entries per node, 244 bytes for a soft link);
+   every theorem holds for all values.  reach c h = writer state after the history h. *)
+From HV Require Import Base.Prelude Model.GroupNS.
+From HV Require Import Proofs.GroupNSHeap Proofs.GroupNSInv Proofs.GroupNSRead Proofs.GroupNSLink Proofs.GroupNSWitness.
+
+(* For every admissible history (paths in the specification's syntax; hard-link targets are datasets)
+   without soft links and with fewer calls than the reader's nesting limit (1024): every call returns the same ok/err class as the specification (which rejects
+   duplicate names, missing or non-group parents, missing targets, and refuses exactly at the capacity
+   limits), and the reader's walk of the final state yields exactly the specification's tree. *)
+Theorem C03_refines : forall c h, adm c s_empty h = true -> no_soft h = true -> not_too_deep c h = true ->
+  map is_ok (snd (run (step c) (init c) h)) = map is_ok (snd (run (spec_step c) s_empty h)) /\
+  exists tr, read_tree c (fst (run (step c) (init c) h)) = Some tr /\
+             spec_tree (fst (run (spec_step c) s_empty h)) = Some tr.
+Proof. exact refines. Qed.
+Print Assumptions C03_refines.
+
+(* The same with soft links in the history: the reader shows each soft link object as an empty group. *)
+Theorem C03_refines_reader_view : forall c h, adm c s_empty h = true -> not_too_deep c h = true ->
+  map is_ok (snd (run (step c) (init c) h)) = map is_ok (snd (run (spec_step c) s_empty h)) /\
+  exists tr, read_tree c (fst (run (step c) (init c) h)) = Some tr /\
+             spec_tree_as KGroup (fst (run (spec_step c) s_empty h)) = Some tr.
+Proof. exact refines_reader_view. Qed.
+Print Assumptions C03_refines_reader_view.
+
+(* In every reachable state (any calls whatsoever; names_ok: link names non-empty and NUL-free, or
+   linkToParent checks that itself - strict_names) the names the reader decodes in a group are all
+   readable and pairwise distinct. *)
+Theorem C03_no_dup : forall c h g names, names_ok c h = true -> group_names (reach c h) g = Some names ->
+  NoDup names /\ Forall (fun x => x <> None) names.
+Proof. exact no_dup_reach. Qed.
+Print Assumptions C03_no_dup.
+
+(* A failing call leaves every namespace structure that existed before it exactly as it was (fw.groups,
+   every heap segment, every node, every object's kind); for all calls but CreateHardLink also every
+   object header. Holds in any state. *)
+Theorem C03_err_unchanged : forall c w o w' e, step_body c w o = (w', Err e) -> same_ns (clock w) w w'.
+Proof. exact step_err_same_ns. Qed.
+Print Assumptions C03_err_unchanged.
+Theorem C03_err_unchanged_all : forall c w o w' e, is_hard_link o = false ->
+  step_body c w o = (w', Err e) -> same_all (clock w) w w'.
+Proof. exact step_err_same_all. Qed.
+Print Assumptions C03_err_unchanged_all.
+
+(* Creating a name that already exists in the group it would be linked into is rejected. *)
+Theorem C03_reject_dup : forall c h o, names_ok c h = true -> name_exists c (reach c h) o ->
+  is_ok (snd (step_body c (reach c h) o)) = false /\
+  same_ns (clock (reach c h)) (reach c h) (fst (step_body c (reach c h) o)).
+Proof. exact reject_dup_reach. Qed.
+Print Assumptions C03_reject_dup.
+
+(* Creating under a parent that is not the root and not a registered group is rejected (any state). *)
+Theorem C03_reject_missing_parent : forall c w o, parent_group w (op_parent c o) = None ->
+  is_ok (snd (step_body c w o)) = false /\ same_ns (clock w) w (fst (step_body c w o)).
+Proof. exact reject_missing_parent_any. Qed.
+Print Assumptions C03_reject_missing_parent.
+
+(* At node capacity, or when the name does not fit the heap, the call is rejected and nothing changes
+   (the heap and the node are edited in memory only; neither is written). *)
+Theorem C03_capacity : forall c h o g names, names_ok c h = true -> heap_name_ok (op_link_name c o) = true ->
+  parent_group (reach c h) (op_parent c o) = Some g -> group_names (reach c h) g = Some names ->
+  (snod_cap c <= blen names \/ new_heap_size (heap_cap c) < used_bytes names + blen (op_link_name c o) + 1) ->
+  is_ok (snd (step_body c (reach c h) o)) = false /\
+  same_ns (clock (reach c h)) (reach c h) (fst (step_body c (reach c h) o)).
+Proof. exact capacity_reach. Qed.
+Print Assumptions C03_capacity.
+
+(* After a successful CreateHardLink both names resolve to the same object header. *)
+Theorem C03_hardlink_same_object : forall c h p q w', names_ok c h = true -> heap_name_ok (snd (parse_path p)) = true ->
+  step c (reach c h) (HardLink p q) = (w', Ok) ->
+  exists t, resolve_object_address w' p = Some t /\ resolve_object_address w' q = Some t.
+Proof. exact hardlink_same_object_reach. Qed.
+Print Assumptions C03_hardlink_same_object.
+
+(* ---- the exclusions are necessary: one witness each (Proofs/GroupNSWitness.v) ---- *)
+(* target_is_data: a hard link to a group; both sides accept every call, the reader lists /h without children *)
+Theorem C03_group_hardlink_refuted :
+  names_ok go_cfg h_group_hardlink = true /\ all_ok (snd (go h_group_hardlink)) = true /\ all_ok (snd (sp h_group_hardlink)) = true /\
+  read_tree go_cfg (fst (go h_group_hardlink)) <> spec_tree (fst (sp h_group_hardlink)) /\
+  read_tree go_cfg (fst (go h_group_hardlink)) =
+    Some (TNode 0 KGroup [(b "g", TNode 1 KGroup [(b "x", TNode 2 KGroup [])]); (b "h", TNode 1 KGroup [])]).
+Proof. exact group_hardlink_refuted. Qed.
+Print Assumptions C03_group_hardlink_refuted.
+(* target_is_data, sub-case: the target encloses the link: listed without children (and, while the
+   reader treated its own-ancestor check as an error - cyc_cfg - the file could not be opened at all) *)
+Theorem C03_ancestor_link_refuted :
+  all_ok (snd (go h_ancestor_link)) = true /\ all_ok (snd (sp h_ancestor_link)) = true /\
+  read_tree cyc_cfg (fst (run (step cyc_cfg) (init cyc_cfg) h_ancestor_link)) = None /\
+  read_tree go_cfg (fst (go h_ancestor_link)) =
+    Some (TNode 0 KGroup [(b "g", TNode 1 KGroup [(b "h", TNode 2 KGroup [(b "up", TNode 1 KGroup [])])])]).
+Proof. exact ancestor_link_refuted. Qed.
+Print Assumptions C03_ancestor_link_refuted.
+Theorem C03_alias_parent_refuted :
+  map is_ok (snd (go h_alias_parent)) = [true; true; false] /\ map is_ok (snd (sp h_alias_parent)) = [true; true; true].
+Proof. exact alias_parent_refuted. Qed.
+Print Assumptions C03_alias_parent_refuted.
+(* no_soft *)
+Theorem C03_soft_link_refuted :
+  adm go_cfg s_empty h_soft = true /\ all_ok (snd (go h_soft)) = true /\
+  read_tree go_cfg (fst (go h_soft)) = Some (TNode 0 KGroup [(b "d", TNode 1 KData []); (b "s", TNode 2 KGroup [])]) /\
+  spec_tree (fst (sp h_soft)) = Some (TNode 0 KGroup [(b "d", TNode 1 KData []); (b "s", TNode 2 KSoft [])]).
+Proof. exact soft_link_refuted. Qed.
+Print Assumptions C03_soft_link_refuted.
+(* names_ok / path_ok (gob = the tree before the repairs in notes/fixes; go = the tree as it is) *)
+Theorem C03_empty_name_refuted :
+  all_ok (snd (gob h_empty_name)) = true /\
+  group_names (fst (gob h_empty_name)) 0 = Some [Some (b "x"); Some (b "x")] /\ ~ NoDup [Some (b "x"); Some (b "x")].
+Proof. exact empty_name_refuted. Qed.
+Print Assumptions C03_empty_name_refuted.
+Theorem C03_dataset_root_refuted :
+  all_ok (snd (gob h_dataset_root)) = true /\ group_names (fst (gob h_dataset_root)) 0 = Some [Some (b "x"); Some (b "x")].
+Proof. exact dataset_root_refuted. Qed.
+Print Assumptions C03_dataset_root_refuted.
+Theorem C03_nul_name_refuted :
+  all_ok (snd (gob h_nul_name)) = true /\ group_names (fst (gob h_nul_name)) 0 = Some [Some (b "a"); Some (b "a")].
+Proof. exact nul_name_refuted. Qed.
+Print Assumptions C03_nul_name_refuted.
+Theorem C03_trailing_slash_refuted :
+  snd (gob h_trailing_slash) = [Ok; Err ENoParent; Ok] /\
+  read_tree base_cfg (fst (gob h_trailing_slash)) = Some (TNode 0 KGroup [(b "a", TNode 1 KGroup [(b "b", TNode 3 KGroup [])])]).
+Proof. exact trailing_slash_refuted. Qed.
+Print Assumptions C03_trailing_slash_refuted.
+(* C03_err_unchanged_all does not extend to CreateHardLink *)
+Theorem C03_hardlink_rollback_refuted :
+  let w := fst (gob h_rollback) in let w' := fst (step_body base_cfg w o_rollback) in
+  snd (step_body base_cfg w o_rollback) = Err EDup /\
+  option_map refcount (alookup 1 (objects w)) = Some 1 /\ option_map refcount (alookup 1 (objects w')) = Some 2 /\
+  ~ same_all (clock w) w w'.
+Proof. exact hardlink_rollback_refuted. Qed.
+Print Assumptions C03_hardlink_rollback_refuted.
+
+(* ---- with the candidate repairs (notes/fixes) the name exclusion disappears ---- *)
+Theorem C03_no_dup_repaired : forall c h g names, strict_names c = true -> group_names (reach c h) g = Some names ->
+  NoDup names /\ Forall (fun x => x <> None) names.
+Proof. exact no_dup_repaired. Qed.
+Print Assumptions C03_no_dup_repaired.
+Theorem C03_repairs_remove_witnesses :
+  snd (gof h_empty_name) = [Err EInvalidPath; Ok] /\ snd (gof h_dataset_root) = [Err EInvalidPath; Ok] /\
+  snd (gof h_nul_name) = [Ok; Err EInvalidPath] /\
+  snd (gof h_trailing_slash) = [Ok; Ok; Err ENoParent] /\
+  (let w := fst (gof h_rollback) in
+   option_map refcount (alookup 1 (objects (fst (step_body fixed_cfg w o_rollback)))) = Some 1).
+Proof. exact repairs_remove_witnesses. Qed.
+Print Assumptions C03_repairs_remove_witnesses.
+
+(* not_too_deep (shown with the limit set to 2) *)
+Theorem C03_too_deep_refuted :
+  adm shallow_cfg s_empty h_deep = true /\ all_ok (snd (run (step shallow_cfg) (init shallow_cfg) h_deep)) = true /\
+  read_tree shallow_cfg (fst (run (step shallow_cfg) (init shallow_cfg) h_deep)) = None /\
+  spec_tree (fst (run (spec_step shallow_cfg) s_empty h_deep)) <> None.
+Proof. exact too_deep_refuted. Qed.
+Print Assumptions C03_too_deep_refuted.
